@@ -6,7 +6,7 @@ from ..program import AnalysisError, U, own_nodes, walk_no_nested
 from ..dataflow import ReachingDefs, defs_of_node
 from ..consteval import fold, module_consts
 from .common import (need, guards_of, calls_to, all_paths_pass, succs, normal_succs, path_conditions,
-                     atom_text, is_param, interval_of, struct_format, arg_of, default_of, INF)
+                     atom_text, is_param, interval_of, struct_format, arg_of, default_of, INF, ext_calls)
 
 PROPERTY = 'C03'
 LEVEL = 'other'
@@ -107,6 +107,33 @@ def once(R):
         not any(any(s2 in g.succ_reach(s) for s2 in snodes) for s in snodes)
     R.ob('C03.once', 'send_json: exactly one send_text', ok, 'send_json does not call send_text exactly once',
          func=q, node=R.func(q).node, construct='send_json -> send_text')
+    # what is encoded is the caller's object whenever one was given: the "no object given" default must be a value that
+    # JSON cannot express (Ellipsis / a private sentinel) and must be recognised by identity, not by truthiness - with
+    # `_obj or kwargs` (or a None default) the legal top-level values [], 0, "", false, null are sent as {}
+    fj = R.func(q)
+    rdj = ReachingDefs(g)
+    dumps = ext_calls(R, g, {'json.dumps'})
+    need(len(dumps) == 1, 'send_json: json.dumps call not found')
+    dn, dc = dumps[0]
+    objp = [p_ for p_ in fj.params if p_ != 'self'][0]
+    dflt = default_of(fj, objp)
+    sentinel_ok = dflt is not None and (U(dflt) == 'Ellipsis' or (isinstance(dflt, ast.Name) and dflt.id.startswith('_')))
+    from .common import value_cases
+    arg = dc.args[0] if dc.args else None
+    good = arg is not None
+    via_obj = False
+    if good:
+        for (conds, val, site) in value_cases(R, g, dn, arg):
+            if isinstance(val, ast.Name) and val.id == objp:
+                via_obj = True
+                idt = {('%s is not %s' % (objp, U(dflt)), True), ('%s is %s' % (objp, U(dflt)), False)}
+                if conds and not (idt & set(conds)):
+                    good = False
+            elif isinstance(val, (ast.BoolOp, ast.Compare)):
+                good = False
+    R.ob('C03.once', 'send_json encodes exactly the object it was given', sentinel_ok and good and via_obj,
+         'send_json(%s=%s) encodes %s: a falsy but legal JSON value ([], 0, "", false, null) is replaced by the keyword '
+         'arguments, i.e. {} is sent' % (objp, U(dflt), U(arg)), func=q, node=dc, construct='send_json object selection')
 
 
 MASKING = ('frame.Frame.to_bytes', 'frame.Frame.build', 'mask.mask_payload')
